@@ -264,7 +264,7 @@ func run(d desc) hlib.Case {
 	if d.Sc.GoneAt > 0 {
 		gone = hlib.Some(hlib.N(uint64(d.Sc.GoneAt)))
 	}
-	if d.Sc.TLS == "h2" || d.Sc.TLS == "fail" {
+	if d.Sc.TLS == "h2" { // a failed handshake is swallowed by getNextProto: the conn is then served as plain HTTP
 		ad = "Delegated"
 	}
 	stop := hlib.None()
